@@ -165,7 +165,8 @@ class Task:
         self.sim = sim
         self.name = name
         self.fn = fn
-        self.wake = threading.Event()
+        self.wake = threading.Lock()   # binary semaphore: acquired = nothing pending
+        self.wake.acquire()
         self.done = False
         self.killed = False
         self.deadlocked = False
@@ -178,8 +179,7 @@ class Task:
         return not self.done and (self.pred is None or self.pred())
 
     def _run(self):
-        self.wake.wait()
-        self.wake.clear()
+        self.wake.acquire()
         try:
             if not self.killed:
                 self.sim.log("begin", None, None)
@@ -259,11 +259,10 @@ class Sim:
         else:
             nxt = en[self.chooser.choose(len(en), "sched", [f"{t.name}:{t.what}" for t in en])]
         if nxt is not me:
-            nxt.wake.set()
+            nxt.wake.release()
             if me is None:
                 return
-            me.wake.wait()
-            me.wake.clear()
+            me.wake.acquire()
         if me.killed:
             raise Killed()
         if me.deadlocked:
@@ -284,7 +283,10 @@ class Sim:
             return
         t.killed = True
         t.done = True
-        t.wake.set()
+        try:
+            t.wake.release()
+        except RuntimeError:
+            pass
         if t.thread is not threading.current_thread():
             t.thread.join(10)
 
@@ -693,7 +695,7 @@ def _selftest():
             s = s[:12] + "AAAGGGCCC" + s[12:]
         recs.append((f"r{i}", s, "I" * len(s)))
     inputs = {"in.fastq": clirun.fastq(recs)}
-    argv = ["--buffer-size", "200", "-a", "AAAGGGCCC", "-o", "{dir}/out.fastq", "--info-file", "{dir}/info.txt", "{dir}/in.fastq"]
+    argv = ["--buffer-size", "200", "-a", "a0=AAAGGGCCC", "-o", "{dir}/out.fastq", "--info-file", "{dir}/info.txt", "{dir}/in.fastq"]
     base = clirun.run_cli(argv, inputs, cores=1, want_json=False)
     t0 = time.time()
     seen = set()
